@@ -219,6 +219,21 @@ Proof.
   pose proof (rstep_no_nil c s o F) as N. rewrite E in N; cbn in N. now rewrite N, IH.
 Qed.
 
+(* the same for any number of reporters sharing the registry: every operation
+   is a step of the one-reporter machine from SOME state *)
+Theorem never_nil_multi c : fixed c = true ->
+  forall ops t, forallb (fun o => negb (is_nil o)) (snd (xrun c t ops)) = true.
+Proof.
+  intros F ops; induction ops as [|o r IH]; intro t; cbn [xrun]; [reflexivity|].
+  destruct (xstep c t o) as [t1 o1] eqn:E. specialize (IH t1).
+  destruct (xrun c t1 r) as [t2 o2]; cbn [snd] in *.
+  rewrite forallb_app, IH, andb_true_r.
+  destruct o as [k|o]; cbn [xstep] in E.
+  - destruct (Nat.eqb k (xcur t)); inversion E; reflexivity.
+  - pose proof (rstep_no_nil c (xs t) o F) as N.
+    destruct (rstep c (xs t) o) as [s1 out]. inversion E; subst. cbn in *. now rewrite N.
+Qed.
+
 (* every Allocate* hands back a metric (a real child or the no-op) unless the
    callback itself panics; the metric is then usable: reports through any
    handle are total functions of the state (rstep (RDeliver ..) = ODone) *)
